@@ -531,4 +531,79 @@ structure IsoVia (f : Var → Var) (a b : MRS) : Prop where
   inj : ∀ v ∈ varsOf a, ∀ w ∈ varsOf a, f v = f w → v = w
   sorts : ∀ v ∈ varsOf a, (f v).sort = v.sort
 
+/-! ## The in-space class of the isomorphism theorem (named, decidable hypotheses) -/
+
+/-- a hole: an argument value DMRS expresses although it is neither an intrinsic variable nor a
+label — a constrained handle selecting a scope, or the (unexpressed) BODY of a quantifier. -/
+def isHoleArg (m : MRS) (e : EP) (a : Role × Var) : Bool :=
+  a.1 != INTRINSIC_ROLE && (ivToNid m a.2).isNone && !decide (a.2 ∈ m.labels) &&
+    (selectsScope m a.2 || (a.1 == BODY_ROLE && e.isQuantifier))
+
+/-- labels, the top, constrained handles and holes have the sort `h`. -/
+def HandleSorts (m : MRS) : Bool :=
+  m.rels.all (fun e => e.label.sort == HANDLE) &&
+  (match m.top with | some t => t.sort == HANDLE | none => true) &&
+  m.hcons.all (fun hc => hc.hi.sort == HANDLE) &&
+  m.rels.all (fun e => e.args.all (fun a => !isHoleArg m e a || a.2.sort == HANDLE))
+
+/-- the top handle is no label and no argument value. -/
+def TopOk (m : MRS) : Bool :=
+  match m.top with
+  | some t => !decide (t ∈ m.labels) && m.rels.all (fun e => e.args.all (fun a => a.2 != t))
+  | none => true
+
+/-- all handle constraints are qeq. -/
+def QeqOnly (m : MRS) : Bool := m.hcons.all (fun hc => hc.rel == QEQ)
+
+/-- every scopal argument DMRS can express selects a scope that has a representative. -/
+def ArgsLinked (m : MRS) (reps : Reps) : Bool :=
+  m.rels.all (fun e => (e.outArgs none).all (fun a =>
+    !(decide (a.2 ∈ m.labels) || selectsScope m a.2) || argLinked m reps a.2))
+
+/-- no variable-valued argument carries the role CARG. -/
+def NoCargRole (m : MRS) : Bool := m.rels.all (fun e => e.args.all (fun a => a.1 != CONSTANT_ROLE))
+
+/-- one constraint per handle. -/
+def OneConstraint (m : MRS) : Bool := (m.hcons.map (·.hi)).eraseDups.length == m.hcons.length
+
+/-- no label is constrained. -/
+def NoConstrainedLabel (m : MRS) : Bool := m.hcons.all (fun hc => !decide (hc.hi ∈ m.labels))
+
+/-- each hole is used once: as the value of one argument of one predication. -/
+def HolesOnce (m : MRS) : Bool :=
+  m.rels.zipIdx.all (fun ei => ei.1.args.all (fun a => !isHoleArg m ei.1 a ||
+    m.rels.zipIdx.all (fun ej => ej.1.args.all (fun a' => !isHoleArg m ej.1 a' || a.2 != a'.2 ||
+      (ei.2 == ej.2 && a == a')))))
+
+/-- every quantifier has a BODY role. -/
+def QuantBody (m : MRS) : Bool :=
+  m.rels.all (fun e => !e.isQuantifier || e.args.any (fun a => a.1 == BODY_ROLE))
+
+/-- the predication (EP) a node id stands for. -/
+def relAt (m : MRS) (n : Int) : Option EP :=
+  if FIRST_NODE_ID ≤ n then m.rels[(n - FIRST_NODE_ID).toNat]? else none
+
+/-- O1: each quantifier binds the first representative of its restriction — the target of every
+RSTR link is a non-quantifier whose intrinsic variable is the quantifier's ARG0. -/
+def QuantHead (m : MRS) (d : DMRS) : Bool :=
+  d.links.all (fun l => l.role != RESTRICTION_ROLE ||
+    match relAt m l.start, relAt m l.stop with
+    | some s, some t => !t.isQuantifier && s.iv.isSome && t.iv == s.iv
+    | _, _ => false)
+
+/-- the correspondence table of the round trip: tops, intrinsic variables, labels, holes. -/
+def corrTableG (m m2 : MRS) : List (Var × Var) :=
+  (match (strip m).top, m2.top with
+    | some t, some t2 => [(t, t2)]
+    | _, _ => []) ++
+  (List.zip m.rels m2.rels).filterMap (fun p =>
+    match p.1.iv, p.2.iv with
+    | some v, some w => some (v, w)
+    | _, _ => none) ++
+  (List.zip m.rels m2.rels).map (fun p => (p.1.label, p.2.label)) ++
+  (List.zip m.rels m2.rels).flatMap (fun p => p.1.args.filterMap (fun a =>
+    if isHoleArg m p.1 a then (dlookup a.1 p.2.args).map (fun w => (a.2, w)) else none))
+
+def corrMapG (m m2 : MRS) (v : Var) : Var := (dlookup v (corrTableG m m2)).getD v
+
 end Verif.C04
